@@ -710,6 +710,10 @@ class Freshness:
             return True, '', False
         if isinstance(e, ast.Attribute) and e.attr in NON_TERM_FIELDS:
             return True, '', False
+        if isinstance(e, ast.Call) and is_name(e.func) and e.func.id in ('all', 'any', 'len', 'bool', 'isinstance', 'int', 'str', 'repr', 'hash', 'id'):
+            return True, '', False          # a truth value / number / text: no term
+        if isinstance(e, (ast.Compare, ast.BoolOp)) or (isinstance(e, ast.UnaryOp) and isinstance(e.op, ast.Not)):
+            return True, '', False
         if isinstance(e, ast.Call):
             c = em.cg.constructed_class(f, e)
             if c is not None:
@@ -854,6 +858,51 @@ def _one_memo(f, e):
     return True, ''
 
 
+def _only_atomic_under_flag(em, ans, m, cfg, call, field):
+    """the call is dominated by the true side of a test of ``self.G``, where G is bound once, in the constructor, to
+    all(<v is of an atomic term class> for v in self.<field>) and the field is not re-bound afterwards"""
+    nodes = [n for n in em.nodes_for(m, call) if n.kind == 'call' and n.ast is call]
+    if not nodes:
+        return False
+    dom = cfg.g.dominators(cfg.entry)
+    init = ans.methods.get('__init__')
+    if init is None:
+        return False
+    for k in ans.methods.values():
+        if k is not init and any(isinstance(x, ast.Attribute) and x.attr == field and isinstance(x.ctx, (ast.Store, ast.Del)) for x in own_nodes(k.node)):
+            return False
+    for t in dom[nodes[0]]:
+        if t.kind != 'test':
+            continue
+        flags = [x.attr for x in ast.walk(t.ast) if is_self_attr(x)]
+        for g in flags:
+            stores = [(k, s_) for k in ans.methods.values() for s_ in own_nodes(k.node) if isinstance(s_, ast.Assign) and any(is_self_attr(tg, g) for tg in s_.targets)]
+            if len(stores) != 1 or stores[0][0] is not init:
+                continue
+            v = stores[0][1].value
+            if not (isinstance(v, ast.Call) and is_name(v.func, 'all') and len(v.args) == 1 and isinstance(v.args[0], (ast.ListComp, ast.GeneratorExp))):
+                continue
+            comp = v.args[0]
+            if len(comp.generators) != 1 or comp.generators[0].ifs or not is_self_attr(comp.generators[0].iter, field) or not is_name(comp.generators[0].target):
+                continue
+            var = comp.generators[0].target.id
+            e = comp.elt
+            cls_name = None
+            if isinstance(e, ast.Compare) and len(e.ops) == 1 and isinstance(e.ops[0], ast.Is) and isinstance(e.left, ast.Call) and \
+                    is_name(e.left.func, 'type') and e.left.args and is_name(e.left.args[0], var) and is_name(e.comparators[0]):
+                cls_name = e.comparators[0].id
+            elif isinstance(e, ast.Call) and is_name(e.func, 'isinstance') and len(e.args) == 2 and is_name(e.args[0], var) and is_name(e.args[1]):
+                cls_name = e.args[1].id
+            ci = em.engine.classes.get(cls_name) if cls_name else None
+            if ci is None or _class_has_term_fields(ci) or ci is em.cell().cls:
+                continue
+            # the true side of the test leads to the call
+            r = cfg.g.reach([cfg.entry], edge_ok=lambda lbl, a_, b_, t=t: not (a_ is t and lbl == 'true'))
+            if nodes[0] not in r and not (isinstance(t.ast, ast.UnaryOp) and isinstance(t.ast.op, ast.Not)):
+                return True
+    return False
+
+
 def rule_fresh_per_use(em, rep, rid, fr=None):
     rep.rule(rid, 'the stored arguments reach unification in Answer.match only through a renaming copy, one memo per use')
     fr = fr or Freshness(em)
@@ -872,6 +921,9 @@ def rule_fresh_per_use(em, rep, rid, fr=None):
             n += 1
             key = '%s:%s' % (m.qname, norm(a))
             ok, why, alloc = fr.fresh(m, cfg, None, a)
+            if not (ok and alloc) and is_self_attr(a) and _only_atomic_under_flag(em, ans, m, cfg, call, a.attr):
+                rep.ok(rid, key, 'under a flag computed at construction that says every stored argument is an atomic term: nothing to rename', m.loc(call))
+                continue
             if ok and alloc:
                 mo, mw = _one_memo(m, a)
                 if not mo:
@@ -883,6 +935,22 @@ def rule_fresh_per_use(em, rep, rid, fr=None):
                               'simultaneous uses of a non-ground fact constrain each other (assertz(p(_)), p(a), p(b) fails)' % (why or 'no copy is made'),
                               m.loc(call))
     rep.minimum('stored-term arguments of the unification in Answer.match', n, 1)
+    # the stored terms are not handed to a unification from anywhere else either
+    init = ans.methods.get('__init__')
+    stored = {t.attr for s_ in own_nodes(init.node) if isinstance(s_, ast.Assign) for t in s_.targets if is_self_attr(t)} if init else set()
+    for f in em.repo.all_functions(('engine',)):
+        if f.cls is ans:
+            continue
+        for call, callees in em.cg.calls.get(f, ()):
+            if not em.is_binder_call(f, call):
+                continue
+            for a in call.args:
+                hits = [x for x in ast.walk(a) if isinstance(x, ast.Attribute) and x.attr in stored and isinstance(x.ctx, ast.Load) and
+                        not is_name(x.value, 'self')]
+                if hits and isinstance(a, ast.Attribute):
+                    rep.violation(rid, '%s:%s' % (f.qname, norm(a)), 'the stored terms of a fact (%s) are unified with the caller\'s arguments '
+                                  'directly, outside the fact\'s own match(): no renaming copy is made for this use, so two uses of a fact with '
+                                  'variables (or a use and the clause that asserted it) constrain each other' % norm(a), f.loc(call))
 
 
 def rule_copier_derefs(em, rep, rid, fr):
